@@ -6,6 +6,9 @@ package main
 //
 // ops:
 //   cfg <disableNorm 0|1> <hostIdentity hex> <realm hex | ~> <ed25519CA 0|1> <n> {<key hex> <value hex>}*n   -> ok
+//   cfgfile <same fields>   -> ok | load-error …     the same settings WRITTEN INTO A CONFIGURATION FILE that the real
+//        loadVerifyConfigFile reads (and unsealCA unseals) while the process environment carries USERNAME, USER, OTHER,
+//        NOPE, HOME …: whatever the loader does to the operator's text is inside the run (ed25519CA must be 0)
 //   expand <user hex> <template hex>        -> ok <hex> | err          (the real shell.Expand with the handler's mapper)
 //   cert <ssh|x509|k8s> <basic|login|cookie> <login user hex> <pwok 0|1> <url user hex> <keykind> <addGroups 0|1>
 //        -> <status>
@@ -27,6 +30,7 @@ import (
 	"net/http"
 	"net/http/httptest"
 	"net/url"
+	"os"
 	"sort"
 	"strconv"
 	"strings"
@@ -140,6 +144,12 @@ func TestVerifC02(t *testing.T) {
 	state.Config.Base.AllowedAuthBackendsForCerts = []string{proto.AuthTypePassword}
 	state.Config.Base.AllowedAuthBackendsForWebUI = []string{proto.AuthTypePassword}
 	state.passwordChecker = vfC02PW{}
+	handState := state
+	// the daemon's environment: an interactive or container start typically carries these
+	for _, kv := range [][2]string{{"USERNAME", "daemonacct"}, {"USER", "daemonacct"}, {"LOGNAME", "daemonacct"},
+		{"OTHER", "othervalue"}, {"NOPE", "nopevalue"}, {"U", "uvalue"}, {"_a1", "avalue"}, {"USERNAME_x", "xvalue"}} {
+		os.Setenv(kv[0], kv[1])
+	}
 	baseCA := append([][]byte{}, state.caCertDer...)
 	baseKeys := append([]crypto.PublicKey{}, state.KeymasterPublicKeys...)
 	edSigner, err := getSignerFromPEMBytes([]byte(pkcs8Ed25519PrivateKey))
@@ -158,7 +168,53 @@ func TestVerifC02(t *testing.T) {
 			continue
 		}
 		switch f[0] {
+		case "cfgfile":
+			if len(f) < 6 {
+				vio.emit("bad-op")
+				continue
+			}
+			n, err := strconv.Atoi(f[5])
+			if err != nil || len(f) != 6+2*n || f[4] != "0" {
+				vio.emit("bad-op")
+				continue
+			}
+			host, _ := vfUnhex(f[2])
+			exts := []interface{}{}
+			for i := 0; i < n; i++ {
+				k, _ := vfUnhex(f[6+2*i])
+				v, _ := vfUnhex(f[7+2*i])
+				exts = append(exts, map[interface{}]interface{}{"key": k, "value": v})
+			}
+			settings := map[string]interface{}{
+				"base.disable_username_normalization":  f[1] == "1",
+				"base.host_identity":                   host,
+				"base.kerberos_realm":                  nil,
+				"base.ssh_cert_config":                 map[interface{}]interface{}{"extensions": exts},
+				"base.allowed_auth_backends_for_certs": []interface{}{proto.AuthTypePassword},
+				"base.allowed_auth_backends_for_webui": []interface{}{proto.AuthTypePassword},
+				// the run makes thousands of password logins per second
+				"base.password_attempt_global_rate_limit":  1000000,
+				"base.password_attempt_global_burst_limit": 1000000,
+			}
+			if f[3] != "~" {
+				realm, _ := vfUnhex(f[3])
+				settings["base.kerberos_realm"] = realm
+			}
+			loader, err := vfConfigLoader(t)
+			if err != nil {
+				vio.emit("harness-error %v", err)
+				continue
+			}
+			st, err := loader.load(settings, true)
+			if err != nil {
+				vio.emit("load-error %s", strings.Join(strings.Fields(err.Error()), "_"))
+				continue
+			}
+			st.passwordChecker = vfC02PW{}
+			state = st
+			vio.emit("ok")
 		case "cfg":
+			state = handState
 			if len(f) < 6 {
 				vio.emit("bad-op")
 				continue
